@@ -360,9 +360,14 @@ class BPTC19696:
             if data_index == 0:
                 # R(3) has no place in the table (row 0), keep it as received
                 continue
-            bits[data_index if deinterleaved else interleave_index] = table[row - 1][
-                column
-            ]
+            # deinterleaved input uses the layout of deinterleave_all_bits / fill_encoding_table
+            bits[
+                (
+                    BPTC19696.FULL_INTERLEAVING_MAP[interleave_index]
+                    if deinterleaved
+                    else interleave_index
+                )
+            ] = table[row - 1][column]
 
         return bits
 
